@@ -8,6 +8,7 @@ import (
 	"path"
 	"strconv"
 	"sync"
+	"sync/atomic"
 	"syscall"
 	"time"
 
@@ -23,6 +24,8 @@ type SpyFS struct {
 	Tag   string     // "base" / "backup" / ...
 	Inner backupfs.FS // nil = stub mode
 
+	Clock *int64 // shared logical clock: orders the calls of several spies
+
 	mu    sync.Mutex
 	Calls []CallRec
 	// Hook runs before a call is forwarded. A non-nil error is returned to the caller and the
@@ -36,6 +39,7 @@ type SpyFS struct {
 }
 
 type CallRec struct {
+	Order  int64    `json:"order"`
 	Seq    int      `json:"seq"`
 	FS     string   `json:"fs"`
 	Method string   `json:"method"`
@@ -53,6 +57,9 @@ var mutatingMethods = map[string]bool{
 func (s *SpyFS) rec(method string, args ...string) (CallRec, error) {
 	s.mu.Lock()
 	r := CallRec{Seq: len(s.Calls), FS: s.Tag, Method: method, Args: args}
+	if s.Clock != nil {
+		r.Order = atomic.AddInt64(s.Clock, 1)
+	}
 	s.Calls = append(s.Calls, r)
 	hook := s.Hook
 	s.mu.Unlock()
